@@ -864,6 +864,26 @@ func (e *Engine) evalLoopClauses(st *State, fr *Frame, cls []Clause, iterKey str
 			vars[k] = v
 		}
 	}
+	// loop-carried variables: the phis of loop headers carry the source variable's name; a loop clause that names the
+	// variable means its current value (old()/atentry() give earlier ones)
+	for _, b := range fr.fn.Blocks {
+		if !isLoopHeader(b) {
+			continue
+		}
+		for _, in := range b.Instrs {
+			ph, ok := in.(*ssa.Phi)
+			if !ok {
+				break
+			}
+			if ph.Comment == "" {
+				continue
+			}
+			if v, ok := st.rregs(fr)[ph]; ok {
+				vars[ph.Comment] = v
+				typs[ph.Comment] = ph.Type()
+			}
+		}
+	}
 	var out []Term
 	for _, cl := range cls {
 		pre := st
